@@ -597,6 +597,28 @@ def run(ck, facts):
     elif len(tail_adds) > 1:
         detail = "%d additions to next_offset after the loop" % len(tail_adds)
     ck.expect(okend, "R3", "struct_field_info/end-padding", "size rounded up to max_align on the grid", "trailing padding does not round the struct size up to its alignment: %s" % detail, C.loc(s))
+    # padding is recorded in cells: wherever `padding_count` and `padding_field_width` of a field are set together, count = padding bytes / cell width
+    # (the legacy ABI passes `padding_count` arguments of `padding_field_width` bytes each)
+    ncell = 0
+    for b_ in C.bodies_inl(tool, body, depth=1, exclude=[s["path"]]):
+        blocks_ = [x for x in C.walk(b_) if x.get("k") == "block"]
+        for blk in blocks_:
+            assigns = {}
+            for st_ in blk.get("s") or []:
+                y = C.strip_keep_macro(st_["e"]) if st_.get("k") == "semi" else C.strip_keep_macro(st_)
+                if isinstance(y, dict) and y.get("k") == "assign" and C.strip(y["l"]).get("k") == "field" and C.strip(y["l"]).get("n") in ("padding_count", "padding_field_width"):
+                    assigns[C.strip(y["l"])["n"]] = C.strip(y["r"])
+            if "padding_count" not in assigns:
+                continue
+            ncell += 1
+            cnt, wid = assigns["padding_count"], assigns.get("padding_field_width")
+            okc = cnt.get("k") == "bin" and cnt.get("op") == "Div" and wid is not None and C.strip(cnt["r"]).get("k") == "local" and wid.get("k") == "local" and C.strip(cnt["r"]).get("id") == wid.get("id") \
+                and C.strip(cnt["l"]).get("k") == "local"
+            ck.expect(okc, "R3", "struct_field_info/padding-cells#%d" % ncell, "padding_count = padding / padding_field_width",
+                      "a field's padding is recorded as %s cells of `padding_field_width` bytes, not as padding / width: the flattened legacy argument list gets the wrong number of padding arguments" %
+                      ("`%s`" % (C.strip(cnt["l"]).get("n") if cnt.get("k") == "bin" else cnt.get("n") or cnt.get("k"))), C.loc(s, blk.get("ln")))
+    if ncell < 1:     # two on the pinned tree (between fields, after the last field); one when a helper records both
+        ck.bad("R3", "struct_field_info/padding-cells-floor", "no site recording a field's padding cells found (2 counted: between fields, after the last field)", C.loc(s))
     fin = [x for x in C.walk(body) if x.get("k") == "call" and (C.callee(x) or "").endswith("Layout::from_size_align")]
     okf = len(fin) == 1 and [C.strip(a).get("n") for a in fin[0]["a"]] == ["next_offset", "max_align"]
     ck.expect(okf, "R3", "struct_field_info/final-layout", "Layout(next_offset, max_align)", "the struct layout is not built from (next_offset, max_align)", C.loc(s))
